@@ -64,6 +64,8 @@ type Program struct {
 	// Inline reports which helper functions outside the baseline inventory were
 	// expanded into their callers before SSA construction (internal/inline).
 	Inline *inline.Result
+	// PhisSimplified: phis replaced by the one value they take on feasible edges (SimplifyPhis)
+	PhisSimplified int
 }
 
 // NoInline disables the helper inlining (used to produce the inventory).
@@ -170,6 +172,9 @@ func Load(root string, extraEnv ...string) (*Program, error) {
 			continue
 		}
 		p.funcs[sn+"."+fn.RelString(fn.Pkg.Pkg)] = fn
+	}
+	if os.Getenv("GFS3_NO_PHISIMP") == "" {
+		p.PhisSimplified = SimplifyPhis(p.RepoFuncs())
 	}
 	p.SSASecs = time.Since(t1).Seconds()
 	return p, nil
